@@ -391,6 +391,68 @@ def run(ctx, rep):
         n_pan += sum(1 for e in eng.log if e['kind'] == 'panic')
         n_text += 1 if good else 0
     rep.floor('verified text routes (shared method or per type)', n_text, 1)
+    # R18.9 the numeric route on witness values: every finite value inside the documented range is accepted - the end points, both
+    # zeros, the smallest subnormal, the smallest normal number.  The route is interpreted on constants (comparisons and f64
+    # classification fold); an outcome that is not a constant Ok/Err leaves the case undecided.
+    n_v = 0
+    for ty in types:
+        if ty not in ranges or ty not in tf_of:
+            continue
+        lo, hi = ranges[ty]
+        cand = [lo, hi, (lo + hi) / 2.0, 0.0, -0.0, 5e-324, -5e-324, 2.2250738585072014e-308, -2.2250738585072014e-308, 1.0, -1.0]
+        for w_ in cand:
+            if not (lo <= w_ <= hi):
+                continue
+            eng = ctx.engine()
+            try:
+                tree = eng.call_entry(tf_of[ty], [E.C('f64', w_)])
+                lv = list(E.leaves_of(tree))
+            except Exception:   # noqa
+                lv = []
+            outs = {v[2] for st_ in lv for c, v in ite_leaves(st_.ret) if v[0] == 'enum'}
+            free = any(st_.asm for st_ in lv)
+            n_v += 1
+            odd = sorted(n_ for n_ in eng.unmodelled if n_.startswith(('std::', 'core::', 'alloc::')) and not n_.startswith(('core::fmt::', 'std::fmt::')))
+            verdict = None
+            if lv and not free and not odd and outs == {'Ok'}:
+                verdict = True
+            elif lv and not free and not odd and outs == {'Err'}:
+                verdict = False
+            rep.ob('R18.9', f'witness-value:{last_seg(ty)}:{w_!r}', verdict,
+                   f'{w_!r} is accepted' if verdict else (f'the finite value {w_!r} lies inside [{lo}, {hi}] and is rejected by TryFrom<f64>'
+                                                          if verdict is False else f'outcome for {w_!r} not constant ({sorted(outs)}, {odd[:2]})'),
+                   where=lib.bodies[tf_of[ty]].span)
+    rep.extra['numeric_witnesses'] = n_v
+    # R18.8 what is handed to str::parse is the input text itself: a prefix stripped, a trim, a replacement before parsing changes the
+    # set of accepted spellings (`"+-5"`, `" 5"`), whatever the helper does - decided on the argument term alone, so it does not
+    # depend on the interpreter understanding the helper
+    n_parse = 0
+    for fn_ in sorted(set(parse_defaults) | {impl_fn(ty, 'str::FromStr', 'from_str')[0] for ty in fromstr_types}):
+        eng = ctx.engine()
+        for q_ in tf_of.values():
+            eng.opaque.add(q_)
+        eng.opaque.add(try_from_default)
+        if fn_ not in parse_defaults:
+            for pd in parse_defaults:
+                eng.opaque.add(pd)
+        try:
+            tree = eng.call_entry(fn_, eng.sym_args(fn_, ['s']))
+            lv = list(E.leaves_of(tree))
+        except Exception:   # noqa
+            continue
+        parses = set()
+        for st_ in lv:
+            for x in list(subterms(st_.ret)) + [y for c_ in st_.asm for y in subterms(c_)]:
+                if x and x[0] == 'app' and x[1].endswith('<impl str>::parse'):
+                    parses.add(x)
+        for x in parses:
+            n_parse += 1
+            okp = x[2] == (('param', 's'),)
+            rep.ob('R18.8', f'parse-argument:{last_seg(fn_)}', okp,
+                   'str::parse is applied to the input text itself' if okp else
+                   f'str::parse is applied to {show(x[2][0], maxd=4)[:120]}, not to the input text: the text route accepts spellings the float '
+                   'grammar rejects (or the reverse)', where=lib.bodies[fn_].span)
+    rep.extra['parse_calls_on_text_routes'] = n_parse
     # the text route on witness spellings: every form of the float grammar of `str::parse::<f64>` (sign, bare point, exponent in
     # either case, leading zeros) reaches the shared parse-then-validate step; a text-only test that answers Err for one of them
     # before parsing rejects a number the other two routes accept.  The route is evaluated with `s` a constant: predicates of
